@@ -50,7 +50,14 @@ def file_runs(chk, triples, n):
         chk.count(("file", info.get("abstract"), strat), nontrivial=True)
         if errs:
             bad += 1
-            chk.violation("nbmerge-file-invalid:%s" % _msg_class(errs[0]),
+            def types(nb):
+                return {c.get("id"): c.get("cell_type") for c in nb.get("cells", []) if c.get("id") is not None}
+            bt = types(b)
+            changed = any(k in bt and bt[k] != v for side in (l, r) for k, v in types(side).items())
+            sig = ("merged-invalid:additional-properties:celltype-changed-on-one-side"
+                   if errs[0].startswith("Additional properties are not allowed") and changed
+                   else "nbmerge-file-invalid:%s" % _msg_class(errs[0]))
+            chk.violation(sig,
                           "file written by nbmerge --out fails the schema of its declared minor: %s" % errs[0],
                           {"triple": name, "strategy": strat, "base": to_plain(b), "local": to_plain(l),
                            "remote": to_plain(r), "errors": errs})
@@ -120,7 +127,7 @@ def classify_valid(chk, ev, run_, clauses, info):
 
 def run():
     chk = Check("C04")
-    triples, tasks = build(chk, "c04")
+    triples, tasks = build(chk, "c04", screen="invalid")
     events = mergefam.generate(tasks)
     info = {t[0]: t[4] for t in triples}
     for tid, names in events.meta:
